@@ -659,6 +659,8 @@ class Interp:
                 if isinstance(m, FuncInfo):
                     if any(isinstance(d, ast.Name) and d.id == 'singledispatchmethod' for d in m.node.decorator_list):
                         return TOP
+                    if any(isinstance(d, ast.Name) and d.id == 'staticmethod' for d in m.node.decorator_list):
+                        return Fn(m, {})          # no receiver is passed
                     return Fn(m, {}, base)
             if base.pytype is not None:
                 return self.getattr_value(A(base.pytype), attr, frame, node)
@@ -1020,7 +1022,9 @@ class Interp:
     def new_env(self, fi: FuncInfo, closure=None):
         module = fi.module
         P = self.P
-        closure = closure or {}
+        closure = dict(closure or {})
+        for k, orig in (getattr(fi, 'bound', None) or {}).items():
+            closure.setdefault(k, Fn(orig))          # a decorator's wrapper closed over the function it decorates
 
         def globals_lookup(name, _m=module):
             if name in closure:
@@ -1499,6 +1503,17 @@ class Interp:
         return res
 
     def s_With(self, st, env, frame):
+        fi = env.get('__fi__')
+        if len(st.items) == 1 and isinstance(st.items[0].context_expr, ast.Call) and st.items[0].optional_vars is None and fi is not None \
+                and fi.module.dotted(st.items[0].context_expr.func) == 'contextlib.suppress' and not st.items[0].context_expr.keywords:
+            # `with contextlib.suppress(E1, E2): body` is `try: body  except (E1, E2): pass`
+            c = st.items[0].context_expr
+            h = ast.ExceptHandler(type=ast.Tuple(elts=list(c.args), ctx=ast.Load()), name=None, body=[ast.Pass()])
+            t = ast.Try(body=st.body, handlers=[h], orelse=[], finalbody=[])
+            ast.copy_location(t, st)
+            ast.copy_location(h, st)
+            ast.fix_missing_locations(t)
+            return self.s_Try(t, env, frame)
         env = dict(env)
         for item in st.items:
             v = self.ev(item.context_expr, env, frame)
